@@ -58,6 +58,42 @@ def eval_fixed_ws(args):
     return bad or False
 
 
+# ---------------------------------------------------------------- typed particles: a wildcard of the restriction must not re-admit a dropped typed element
+PART = {'A': lambda pc: f'<xs:any namespace="##any" processContents="{pc}" minOccurs="0"/>', 'E': lambda pc: '<xs:element name="e" type="xs:int" minOccurs="0"/>',
+        'F': lambda pc: '<xs:element name="f" type="xs:string" minOccurs="0"/>'}
+TYPED_DOCS = ['', '<e>1</e>', '<e>abc</e>', '<f>x</f>', '<e>abc</e><f>x</f>', '<g/>', '<e>1</e><g/>', '<f>x</f><e>abc</e>', '<e><x/></e>']
+
+
+def typed_jobs():
+    for model in ('all', 'sequence'):
+        for n in (1, 2, 3):
+            for base in itertools.permutations('AEF', n):
+                for k in range(0, n + 1):
+                    for der in itertools.permutations(base, k):
+                        if model == 'sequence' and [x for x in base if x in der] != list(der): continue      # a sequence restriction keeps the order
+                        for pc in ('lax', 'skip'):
+                            if 'A' not in base and pc == 'skip': continue
+                            yield (model, ''.join(base), ''.join(der), pc)
+
+
+def eval_typed(args):
+    model, base, der, pc, ver = args
+    import xmlschema
+    if model == 'all' and ver == '1.0' and 'A' in base: return None        # wildcards in xs:all are XSD 1.1
+    grp = lambda ps: f'<xs:{model}>' + ''.join(PART[x](pc) for x in ps) + f'</xs:{model}>'
+    text = (f'<xs:schema {XS}><xs:complexType name="B">{grp(base)}</xs:complexType>'
+            f'<xs:complexType name="D"><xs:complexContent><xs:restriction base="B">{grp(der)}</xs:restriction></xs:complexContent></xs:complexType>'
+            f'<xs:element name="b" type="B"/><xs:element name="d" type="D"/></xs:schema>')
+    try: s = _cls(ver)(text)
+    except xmlschema.XMLSchemaException: return None        # restriction (or model) rejected: nothing to check
+    bad = []
+    for c in TYPED_DOCS:
+        try:
+            if s.is_valid(f'<d>{c}</d>') and not s.is_valid(f'<b>{c}</b>'): bad.append(c)
+        except Exception as e: bad.append(f'{c}: {type(e).__name__}')
+    return bad or False
+
+
 def run(tier, seed, open_findings):
     jobs = []
     for kind, facets in (('int', INT_FACETS), ('str', STR_FACETS)):
@@ -87,10 +123,26 @@ def run(tier, seed, open_findings):
                       distinct=sum(1 for r in wres if r is not None), samples=[dict(base_type='xs:string', derived_type='xs:token', base_fixed='x  y', derived_fixed='x y')]))
     out.append(result('C14.attribute_use_pairs', f'{len(ajobs)} (base use/fixed, derived use/fixed, class) combinations x 4 instances', len(ajobs), afail, exhaustive=True,
                       distinct=sum(1 for r in ares if r is not None), samples=[dict(base=ajobs[7][:2], derived=ajobs[7][2:4])]))
+    tjobs = [j + (ver,) for j in typed_jobs() for ver in ('1.0', '1.1')]
+    tres = pmap(eval_typed, tjobs)
+    from .common import load_instances
+    TK = 'C14-xsd11-sequence-wildcard-readmits-dropped-typed-element'
+    listed = load_instances('C14_typed_instances.json') if TK in open_findings else {}
+    tfail = []; tknown = 0
+    for r, j in zip(tres, tjobs):
+        if not r: continue
+        if listed.get('|'.join(j)) == r: tknown += 1; continue
+        tfail.append(dict(case=dict(typed=True, model=j[0], base=j[1], derived=j[2], process_contents=j[3], version=j[4]), observed=f'the restricted type accepts {r} that the base type rejects',
+                          required='instances(derived) subset of instances(base)', baseline=listed.get('|'.join(j))))
+    out.append(result('C14.typed_particles_and_wildcards', f'{len(tjobs)} (group kind, base particles in order, derived particles, processContents, class) over a lax/skip wildcard and two typed optional elements x {len(TYPED_DOCS)} contents',
+                      len(tjobs), tfail, exhaustive=True, known=({TK: tknown} if tknown else {}), distinct=sum(1 for r in tres if r is not None), samples=[dict(model='all', base='AEF', derived='A', process_contents='lax')]))
     return out
 
 
 def replay(check_name, case):
+    if case.get('typed'):
+        r = eval_typed((case['model'], case['base'], case['derived'], case['process_contents'], case['version']))
+        return dict(ok=not r, observed=r, required='derived admits a subset')
     if check_name == 'C14.attribute_fixed_whitespace':
         r = eval_fixed_ws((case['base_type'], case['derived_type'], case['base_fixed'], case['derived_fixed'], case['version']))
         return dict(ok=not r, observed=r, required='derived admits a subset')
